@@ -87,8 +87,10 @@ def random_state_vector(
         ret_vec = mat_1 @ mat_2
         return np.divide(ret_vec, np.linalg.norm(ret_vec))
 
-    # Schmidt rank is full, so ignore it.
-    ret_vec = gen.random((dim, 1))
+    # Schmidt rank is full, so ignore it. A list of local dimensions describes
+    # a vector on the whole space.
+    total_dim = int(np.prod(dim))
+    ret_vec = gen.random((total_dim, 1))
     if not is_real:
-        ret_vec = ret_vec + 1j * gen.random((dim, 1))
+        ret_vec = ret_vec + 1j * gen.random((total_dim, 1))
     return np.divide(ret_vec, np.linalg.norm(ret_vec))
